@@ -104,6 +104,8 @@ func lineKind(l string) string {
 		return "sg"
 	case strings.HasPrefix(l, "md "):
 		return "md"
+	case strings.HasPrefix(l, "io "):
+		return "io"
 	}
 	return "other"
 }
